@@ -125,6 +125,20 @@ def generate(rng, tier):
             ops.pop()
         ops.append(["save", rng.choice(MODES), c["structure"]])
         c["ops"] = ops
+        # what the user does between the failure and the retry ("followed by any retry sequence")
+        c["after"] = []
+        if rng.random() < 0.6:
+            sh = pc.Shadow(c["spec"])
+            for o in ops[:-1]:
+                if o[0] != "save":
+                    sh.do(o)
+            c["after"] = [o for o in pc.gen_ops(rng, sh.s, rng.randint(1, 3), ["inplace"], p_save=0.0) if o[0] != "save"]
+            if rng.random() < 0.5:
+                # delete a glyph that exists at that point
+                for l in sh.s["layers"]:
+                    if l["glyphs"]:
+                        c["after"].insert(0, ["gdel", l["name"], sorted(l["glyphs"])[0]])
+                        break
         # small fonts keep N moderate
         for l in c["spec"]["layers"]:
             for gn in list(l["glyphs"])[4:]:
@@ -255,6 +269,32 @@ def _observed_plan(steps, kind, flags):
     return res
 
 
+OWN_STEP = {
+    "data": {"UFOWriter.writeBytesToPath", "UFOWriter.removePath", "UFOWriter.copyFromReader"},
+    "images": {"UFOWriter.writeImage", "UFOWriter.removeImage", "UFOWriter.copyImageFromReader"},
+    "kerning": {"UFOWriter.writeKerning"}, "features": {"UFOWriter.writeFeatures"}, "info": {"UFOWriter.writeInfo"},
+    "groups": {"UFOWriter.writeGroups"}, "lib": {"UFOWriter.writeLib"},
+}
+
+
+def _items(dump):
+    """a dump as {item key: canonical value}: one item per top-level part, image, data file, layer and glyph"""
+    import json
+    res = {}
+    for part in ("info", "guidelines", "kerning", "groups", "features", "lib", "default"):
+        res[(part,)] = json.dumps(dump.get(part), sort_keys=True)
+    for n, v in dump["images"].items():
+        res[("images", n)] = v
+    for n, v in dump["data"].items():
+        res[("data", n)] = v
+    res[("layerorder",)] = json.dumps([l["name"] for l in dump["layers"]])
+    for l in dump["layers"]:
+        res[("layers", l["name"], "<info>")] = json.dumps([l["color"], l["lib"]], sort_keys=True)
+        for gn, g in l["glyphs"].items():
+            res[("layers", l["name"], gn)] = json.dumps(g, sort_keys=True)
+    return res
+
+
 def run_impl(case):
     install()
     op = case["ops"][-1]
@@ -329,25 +369,44 @@ def run_impl(case):
                                  path=[path0, font.path], fmt=[str(fmt0), str(font.ufoFormatVersion)]))
             if dirty0 and not font.dirty:
                 viol.append(dict(rec, clause="C18/not-dirty-after-failure", signature="C18/not-dirty-after-failure/" + sig_tail))
-            # (4) a retry to the font's path persists everything
+            # (4) more edits, then a retry to the font's path persists everything
             try:
+                at_failure = _items(pc.strip_order(fg.expected_dump(shadow.s)))
+                for o in case.get("after", []):
+                    st, _ = impl.do(o)
+                    if st == "ok":
+                        shadow.do(o)
                 if font.path is not None:
                     font.save()
                 else:
                     font.save(impl.new_path(case.get("structure", "package")))
-                exp = pc.strip_order(fg.expected_dump(shadow.s))
+                exp = _items(pc.strip_order(fg.expected_dump(shadow.s)))
                 got = pc.strip_order(fg.read_ufo(font.path))
                 got.pop("formatVersion", None)
                 got.pop("structure", None)
-                r = fg.diff_dumps(exp, got)
-                if r:
-                    top = r.split(":")[0].strip("/").split("/")[0].split("[")[0]
-                    viol.append(dict(rec, clause="C18/retry-loses-changes",
-                                     signature="C18/retry-loses-changes/%s/%s" % ("inplace" if kind == "inplace" else "saveas", top),
-                                     diff=r))
+                got = _items(got)
+                bad = sorted(k for k in set(exp) | set(got) if exp.get(k) != got.get(k))
+                mclass = "inplace" if kind == "inplace" else "saveas"
+                if kind == "inplace" and str(path0).endswith(".ufoz"):
+                    mclass = "inplace-zip"      # a zip is rewritten on close(): every earlier failure leaves it untouched
+                seen = set()
+                for k in bad:
+                    post = at_failure.get(k) != exp.get(k)      # the item was changed AFTER the failed save
+                    if post:
+                        sig = "C18/retry-loses-post-failure-change/%s/%s" % (mclass, k[0])
+                    else:
+                        own = "at-own-step" if OWN_STEP.get(k[0]) and step in OWN_STEP[k[0]] else "after-later-step"
+                        sig = "C18/retry-loses-changes/%s/%s/%s" % (mclass, k[0], own)
+                    if sig in seen:
+                        continue
+                    seen.add(sig)
+                    viol.append(dict(rec, clause=sig.rsplit("/", 3)[0] if post else "C18/retry-loses-changes", signature=sig,
+                                     item=list(k), expected=str(exp.get(k))[:200], observed=str(got.get(k))[:200]))
             except Exception as e:
                 viol.append(dict(rec, clause="C18/retry-raises",
-                                 signature="C18/retry-raises/%s/%s" % ("inplace" if kind == "inplace" else "saveas", type(e).__name__),
+                                 signature="C18/retry-raises/%s/%s" % (
+                                     ("inplace-zip" if str(path0).endswith(".ufoz") else "inplace") if kind == "inplace" else "saveas",
+                                     type(e).__name__),
                                  error=str(e)[:200]))
             try:
                 font.close()
